@@ -32,7 +32,7 @@ type faultBank struct {
 	inject      []bool // planned failures per call index
 	seen        []bool // what actually happened per call (true = failed)
 	sweepFailed bool
-	payoutOnly  bool // planned failures hit payouts and burns only; sweeps of the sources go through
+	payoutOnly  bool                  // planned failures hit payouts and burns only; sweeps of the sources go through
 	sweeps      map[string][]sweepRec // this block: per swept address its sweeps in order (what was asked for, and whether it went through)
 }
 
@@ -611,9 +611,9 @@ func (e *distrEnv) genUpdate(cfg *distrCfg, mainAddr string) (upd *distrCfg, ret
 			if okClass(renamed) && okClass(final) {
 				*cfg = renamed
 				e.rep.Count("update.retype_internal_to_final_" + nw.typ)
-			if os.Getenv("VERIF_DEBUG") != "" {
-				fmt.Fprintf(os.Stderr, "retype-final: %s -> %s %s\n", old, nw.typ, nw.id)
-			}
+				if os.Getenv("VERIF_DEBUG") != "" {
+					fmt.Fprintf(os.Stderr, "retype-final: %s -> %s %s\n", old, nw.typ, nw.id)
+				}
 				return &final, true
 			}
 		}
@@ -1132,6 +1132,12 @@ func runDistrCase(ta *TestApp, seed uint64, idx int, rep *Report, profile string
 		rep.Count("faults_mode.payouts_and_burns_only")
 	}
 	nBlocks := 2 + rng.Intn(10)
+	// in a third of the cases a governance message that changes a burn share runs before some block without taking effect: it is
+	// refused by validation (the shares would add up to one or more), or it is valid but runs on a branch of the state that is dropped
+	attemptAt, attemptSd, attemptValid := -1, 0, false
+	if rng.Chance(33) {
+		attemptAt, attemptSd, attemptValid = rng.Intn(nBlocks), rng.Intn(len(cfg.subs)), rng.Bool()
+	}
 	updAt := -1
 	if cfg2 != nil {
 		if nBlocks < 5 {
@@ -1263,6 +1269,28 @@ func runDistrCase(ta *TestApp, seed uint64, idx int, rep *Report, profile string
 			fb.inject = nil
 			if withFaults {
 				fb.inject = pb.inject
+			}
+			if bIdx == attemptAt && !updated {
+				burn := sdk.NewDec(1) // refused: the shares of a sub-distributor must add up to less than one
+				if attemptValid {
+					burn = sdk.NewDecWithPrec(int64(1+rng.Intn(3)), 2)
+					tot := burn
+					for _, sh := range cur.subs[attemptSd%len(cur.subs)].shares {
+						tot = tot.Add(sh.share)
+					}
+					if tot.GTE(sdk.OneDec()) {
+						burn = sdk.ZeroDec()
+					}
+				}
+				cc, _ := rctx.CacheContext()
+				func() {
+					defer func() { _ = recover() }()
+					distrkeeper.NewMsgServerImpl(k).UpdateSubDistributorBurnShareParam(sdk.WrapSDKContext(cc), &distrtypes.MsgUpdateSubDistributorBurnShareParam{ //nolint:errcheck
+						Authority: appparams.GetAuthority(), SubDistributorName: cur.subs[attemptSd%len(cur.subs)].name, BurnShare: burn})
+				}()
+				if record {
+					rep.Count("update_attempt_without_effect")
+				}
 			}
 			fb.seen = nil
 			fb.sweeps = nil
